@@ -136,6 +136,16 @@ SpecialCases ==
   \cup {[form |-> "exp_spline", p |-> <<R(0), b1, R(0), R(0), R(0), R(0), c>>, x |-> R(0), v |-> RAdd(ROne, c)] : b1 \in {R(3), R(-2)}, c \in {R(1), <<-7, 2>>}}
   \cup {[form |-> "sqrt", p |-> <<g>>, x |-> R(k * k), v |-> RMul(g, R(k))] : g \in {R(3), <<-5, 2>>}, k \in 0..4}
 
+\* the transcendental forms over parameter lattices that include zero and negative values of EVERY parameter (a negative rho is a
+\* growing exponential, a negative gamma a mirrored Morse well): no exact value here - the four routes must agree with each other
+\* to the last bit, and the engine's relations (exponential addition law, derivatives) pin the function-call route
+RouteCases ==
+  {[form |-> "bornmayer", p |-> <<a, rho>>, x |-> x] : a \in {R(1000), R(-5), R(0)}, rho \in {<<3, 10>>, <<-1, 2>>, R(-2)}, x \in Xs}
+  \cup {[form |-> "buck", p |-> <<a, rho, c>>, x |-> x] : a \in {R(1000), R(-5)}, rho \in {<<3, 10>>, <<-1, 2>>}, c \in {R(32), R(0), R(-7)}, x \in Xs}
+  \cup {[form |-> "morse", p |-> <<g, rs, d>>, x |-> x] : g \in {<<3, 2>>, R(-1), R(0)}, rs \in {R(2), R(0), <<-1, 2>>}, d \in {R(3), <<-1, 2>>, R(0)}, x \in Xs}
+  \cup {[form |-> "coul", p |-> <<qi, qj>>, x |-> x] : qi \in {R(2), R(-1), R(0)}, qj \in {R(-2), <<3, 2>>}, x \in Xs}
+  \cup {[form |-> "sqrt", p |-> <<g>>, x |-> x] : g \in {R(0), <<-5, 2>>}, x \in Xs}
+
 \* four-range Buckingham: A exp(-r/rho) up to r_detach, -C/r^6 from r_attach, between them a fifth-order and (from r_min) a
 \* third-order polynomial fixed by the ten equations of PolyRows!Buck4Rows (value, slope and curvature continuous at the
 \* three knots, stationary at r_min).  The rows are exact; the harness solves them exactly with the documented end pieces.
@@ -152,7 +162,7 @@ Buck4Cases ==
 
 Emit == IF "EMIT" \in DOMAIN IOEnv /\ IOEnv.EMIT = "1"
         THEN /\ ndJsonSerialize(IOEnv.VERIF_OUT \o "/exact.ndjson", SetToSeq(ExactCases \cup ExponentialCases \cup ExponentialAtZero))
-             /\ ndJsonSerialize(IOEnv.VERIF_OUT \o "/special.ndjson", SetToSeq(SpecialCases))
+             /\ ndJsonSerialize(IOEnv.VERIF_OUT \o "/special.ndjson", SetToSeq(SpecialCases \cup RouteCases))
              /\ ndJsonSerialize(IOEnv.VERIF_OUT \o "/sig.ndjson", <<[n \in Names |-> Sig[n]]>>)
              /\ ndJsonSerialize(IOEnv.VERIF_OUT \o "/buck4.ndjson", SetToSeq(Buck4Cases))
              /\ ndJsonSerialize(IOEnv.VERIF_OUT \o "/factoryonly.ndjson", SetToSeq(FactoryOnly))
